@@ -308,6 +308,9 @@ func c19Exec(raw json.RawMessage) interface{} {
 	if linger < 25*time.Millisecond {
 		linger = 25 * time.Millisecond
 	}
+	if linger > 60*time.Millisecond {
+		linger = 60 * time.Millisecond
+	}
 	time.Sleep(linger)
 	obs.Late = count() - nConv
 	sy.Close()
@@ -414,6 +417,11 @@ func c19Gen(r *verifh.Rand, i int) interface{} {
 		in.Key = r.Pick("p/a", "p/a", "p", "p/b")
 	}
 	in.PullMs = r.PickInt(5, 5, 10, 20)
+	if r.Bool(1, 6) {
+		// watch-driven: the ticker cannot help within the harness's waiting time, every
+		// change has to arrive through a watch event
+		in.PullMs = 10000
+	}
 	in.Seq = r.Bool(1, 3)
 	if r.Bool(1, 2) {
 		in.ConsumeUs = r.PickInt(100, 1000, 5000, 20000)
@@ -432,7 +440,7 @@ func c19Gen(r *verifh.Rand, i int) interface{} {
 	for k := 0; k < n; k++ {
 		w := c19GenWrite(r, local)
 		if !burst || r.Bool(1, 6) {
-			w.PauseUs = r.PickInt(0, 100, 200, 500, 1000, 3000, in.PullMs*1500)
+			w.PauseUs = r.PickInt(0, 100, 200, 500, 1000, 3000, (in.PullMs%1000)*1500)
 		}
 		c19ApplyLocal(local, w)
 		in.Writes = append(in.Writes, w)
